@@ -73,6 +73,8 @@ def rand_schema(rng, depth, name, hostile, pools=None, top=False):
             if nm not in names:
                 names.append(nm)
         s["fields"] = [rand_schema(rng, depth - 1, nm, hostile, pools) for nm in names]
+        if rng.random() < 0.15:
+            s["sparse"] = True
     elif k == "l":
         mname = rng.choice([None, None, "m", pick_name(rng, hostile, pools)])
         s["member"] = rand_schema(rng, depth - 1, mname, hostile, pools)
@@ -84,7 +86,13 @@ def rand_schema(rng, depth, name, hostile, pools=None, top=False):
 def instantiate(rng, s, maxlen=3):
     k = s["k"]
     node = {"k": k, "name": s["name"], "kids": []}
-    if k == "d":
+    if k == "d" and s.get("sparse"):
+        # SparseDict: only some of the schema's fields are present, in set() order
+        present = [f for f in s["fields"] if rng.random() < 0.6]
+        rng.shuffle(present)
+        node["sparse"] = [f for f in s["fields"] if f not in present]
+        node["kids"] = [instantiate(rng, f, maxlen) for f in present]
+    elif k == "d":
         node["kids"] = [instantiate(rng, f, maxlen) for f in s["fields"]]
     elif k == "l":
         node["member"] = s["member"]
@@ -138,6 +146,9 @@ def schema_of(node):
     s = {"k": k, "name": node["name"]}
     if k == "d":
         s["fields"] = [schema_of(c) for c in node["kids"]]
+        if "sparse" in node:
+            s["fields"] = s["fields"] + list(node["sparse"])
+            s["sparse"] = True
     elif k in ("l", "a", "m"):
         s["member"] = node.get("member") or (schema_of(node["kids"][0]) if node["kids"] else {"k": "s", "name": None})
     return s
@@ -148,6 +159,8 @@ def schema_class(s):
     k = s["k"]
     if k == "s":
         cls = flatland.String
+    elif k == "d" and s.get("sparse"):
+        cls = flatland.SparseDict.of(*[schema_class(f) for f in s["fields"]])
     elif k == "d":
         cls = flatland.Dict.of(*[schema_class(f) for f in s["fields"]])
     elif k == "c":
